@@ -171,7 +171,7 @@ func init() {
 		Level: "exploration",
 		Rule: "random histories over schema K with plain and extended child stores; every store carries one listener of every registration style (AddListener sync and async, AddEntityEventListener, AddEntityEventListenerF async, AddEntityIdListener, " +
 			"AddEntityConstraint, AddUntypedEntityConstraint) for create/update/delete; every delivery is appended to an event log with the transaction serial, whether the transaction body was still running, and (sync listeners) the entity as seen by a fresh read transaction. " +
-			"After each transaction (Db.Update, and Db.Batch incl. concurrent batches where one member fails and bbolt re-runs the others) an offline checker compares the multiset of (style, store, type, id, state digest) with the model's expectation " +
+			"Every fourth transaction goes on with the MutateContext of the previous one (committed or rolled back); the commit-action counts of earlier transactions are final once checked: a later commit must not move them. After each transaction (Db.Update, and Db.Batch incl. concurrent batches where one member fails and bbolt re-runs the others) an offline checker compares the multiset of (style, store, type, id, state digest) with the model's expectation " +
 			"(final state for create/update, last state for delete, one extra event on the parent store for child entities, none for rolled-back / vetoed / rejected work) and commit-action / tx-complete counts with 1 per committed transaction. " +
 			"Built with the race detector. non-trivial = distinct (op kind, store route, child kind, outcome, ops in transaction, Update/Batch) tuples",
 		Assumptions: []string{"on the extended child store only entities with child data are judged (every parent entity is visible through it by declaration)", "quiescence of asynchronous deliveries is awaited by goroutine-count baseline"},
@@ -184,7 +184,7 @@ func init() {
 		},
 		Run: runC08,
 		Promises: func(core.Tier) map[string][]string {
-			return map[string][]string{"nesting": {"nested-update", "nested-batch", "commit-action-registered-before-the-transaction", "listener-registered-inside-the-transaction"}, "tx_kind": {"update-committed", "update-rolled-back", "update-vetoed", "batch-committed", "batch-concurrent-with-failure"},
+			return map[string][]string{"nesting": {"nested-update", "nested-batch", "commit-action-registered-before-the-transaction", "listener-registered-inside-the-transaction", "context-of-the-previous-transaction-used-again (committed)", "context-of-the-previous-transaction-used-again (rolled back)"}, "tx_kind": {"update-committed", "update-rolled-back", "update-vetoed", "batch-committed", "batch-concurrent-with-failure"},
 				"event": {"parent-event-for-child:created-over-existing", "emps:created", "emps:updated", "emps:deleted", "depts:created", "depts:deleted", "emps/ext:created", "emps/ext:updated", "emps/ext:deleted", "emps/xt:created", "emps/xt:updated", "emps/xt:deleted",
 					"parent-event-for-child:created", "parent-event-for-child:updated", "parent-event-for-child:deleted"}}
 		},
@@ -363,6 +363,7 @@ func runC08(c *core.Ctx, idx int) {
 		serial       int
 	}
 	var late []lateReg
+	settledCommitAct := map[int]int{}
 	checkTx := func(label string, serials []int, exp []expEvent, commits map[int]int, txDoneExp map[int]int, info any) {
 		quiesce(baseline)
 		rec.mu.Lock()
@@ -380,7 +381,25 @@ func runC08(c *core.Ctx, idx int) {
 			ca[s] = rec.commitAct[s]
 			td[s] = rec.txDone[s]
 		}
+		// commit actions of earlier transactions: their counts were final when those transactions were checked
+		var stale []string
+		inThis := map[int]bool{}
+		for _, s := range serials {
+			inThis[s] = true
+		}
+		for s, n := range rec.commitAct {
+			if !inThis[s] && n != settledCommitAct[s] {
+				stale = append(stale, fmt.Sprintf("transaction #%d: %d runs when it was checked, %d now", s, settledCommitAct[s], n))
+			}
+		}
+		for s, n := range rec.commitAct {
+			settledCommitAct[s] = n
+		}
 		rec.mu.Unlock()
+		sort.Strings(stale)
+		if len(stale) > 0 {
+			c.Violationf("C08 a commit action of an earlier transaction ran with a later one ("+label+")", info, "%v", stale)
+		}
 		// expected multiset
 		want := map[string]int{}
 		optional := map[string]bool{}
@@ -506,6 +525,8 @@ func runC08(c *core.Ctx, idx int) {
 		}
 	}
 
+	var lastCtx boltz.MutateContext
+	lastOutcome := ""
 	runOne := func(ops []kmodel.Op, mode string, failAfter bool, veto bool) {
 		serial++
 		s := serial
@@ -528,6 +549,12 @@ func runC08(c *core.Ctx, idx int) {
 		ctx := boltz.NewMutateContext(context.Background())
 		// every third transaction: the caller hands over a context that already carries a commit action
 		preRegistered := s%3 == 1
+		// every fourth: the caller goes on with the context of its previous transaction (a retry after a failure, or
+		// follow-up work): whatever that one registered or queued - committed or rolled back - is not this one's
+		if s%4 == 3 && lastCtx != nil && !preRegistered {
+			ctx = lastCtx
+			c.Cover("nesting", "context-of-the-previous-transaction-used-again ("+lastOutcome+")")
+		}
 		if preRegistered {
 			ctx.AddCommitAction(func() {
 				rec.mu.Lock()
@@ -599,6 +626,12 @@ func runC08(c *core.Ctx, idx int) {
 			err = e.Db.Update(ctx, body)
 		}
 		vetoArmed = false
+		lastCtx, lastOutcome = ctx, map[bool]string{true: "committed", false: "rolled back"}[err == nil]
+		if preRegistered && err != nil {
+			// what the caller put on the context before the transaction is still the caller's after it failed, and would
+			// run with the context's next commit: such a context is not used again here
+			lastCtx = nil
+		}
 		hist = append(hist, fmt.Sprintf("#%d %s fail=%v veto=%v err=%v %v", s, mode, failAfter, veto, err, ops))
 		info := map[string]any{"cfg": cfg.String(), "ops": ops, "mode": mode, "fail_after": failAfter, "veto": veto}
 		committed := err == nil
